@@ -21,7 +21,7 @@ LEVEL = 'exploration'
 BIG = stores.Layout(('seq', 0, 2004), True, False)
 FRAMINGS = ('rtu', 'ascii', 'binary', 'tls')
 FRAMING2 = dict(clients.FRAMING)
-FRAMING2.update({'rtu-over-tcp:subclass': 'rtu', 'ascii-over-tcp:subclass': 'ascii'})
+FRAMING2.update({'rtu-over-tcp:subclass': 'rtu', 'ascii-over-tcp:subclass': 'ascii', 'serial-rtu:echo': 'rtu', 'serial-ascii:echo': 'ascii'})
 
 
 def requests(tier):
@@ -91,6 +91,28 @@ def shard_static(args):
         if pred != len(reply) or (want_ref is not None and pred != want_ref):
             acc.violation('C14/%s/-/normal/pdu' % label, wit,
                           'predicted %r, the server sends %d bytes (reference %r)' % (pred, len(reply), want_ref), label)
+        # the same request as a gateway holds it -- decoded from the wire rather than built by the constructor --
+        # and as an application re-uses it: one object whose quantity is changed after it was built
+        try:
+            dobj = framers.decoder('req').decode(raw)
+            dpred = dobj.get_response_pdu_size()
+            if dpred != len(reply):
+                acc.violation('C14/%s/-/normal/pdu-of-decoded-request' % label, dict(wit, decoded=True),
+                              'a request decoded from %s predicts %r, the server sends %d bytes' % (raw.hex()[:40], dpred, len(reply)), label)
+        except Exception as e:   # noqa
+            acc.violation('C14/%s/-/normal/raise:%s' % (label, type(e).__name__), dict(wit, decoded=True), repr(e)[:100], label)
+        if m['fc'] in (1, 2, 3, 4) and m['count'] > 1:
+            try:
+                small = dict(m, count=1)
+                robj = bind.to_obj(small)
+                robj.get_response_pdu_size()
+                robj.count = m['count']
+                rpred = robj.get_response_pdu_size()
+                if rpred != len(reply):
+                    acc.violation('C14/%s/-/normal/pdu-of-reused-request' % label, dict(wit, reused=True),
+                                  'a request object whose count was changed from 1 to %d predicts %r, the server sends %d bytes' % (m['count'], rpred, len(reply)), label)
+            except Exception as e:   # noqa
+                acc.violation('C14/%s/-/normal/raise:%s' % (label, type(e).__name__), dict(wit, reused=True), repr(e)[:100], label)
         acc.add('nontrivial', (label, len(reply)))
         for framing in FRAMINGS:
             c = cl[framing]
@@ -132,7 +154,13 @@ def run_e2e(acc, kind, m, reply_kind):
     reply = server_reply(m) if reply_kind == 'normal' else bytes([m['fc'] | 0x80, 2])
     frame = adu.build(framing, 1, reply, tid=1)
 
+    echo = kind.endswith(':echo')
+    sent = []
+
     def peer(line, data):
+        sent.append(bytes(data))
+        if echo:
+            line.push(bytes(data))          # a two-wire line: the adapter hears its own transmission first
         line.push(frame)
     line = clients.Line(clock, peer)
     label = '%s' % bind.cls_name(m).replace('Request', '')
@@ -153,8 +181,9 @@ def run_e2e(acc, kind, m, reply_kind):
     problems = []
     if hasattr(r, 'isError') and (r.isError() != (reply_kind == 'exception')) or not hasattr(r, 'function_code'):
         problems.append(('reads', 'the reply was not returned: %r' % (r,)))
-    if asked != len(frame) or None in line.read_sizes:
-        problems.append(('reads', 'frame of %d bytes, the client asked for %r' % (len(frame), line.read_sizes)))
+    expect = len(frame) + (len(sent[0]) if echo and sent else 0)
+    if asked != expect or None in line.read_sizes:
+        problems.append(('reads', 'frame of %d bytes%s, the client asked for %r' % (len(frame), ' after an echo of %d bytes' % len(sent[0]) if echo and sent else '', line.read_sizes)))
     if left:
         problems.append(('reads', '%d reply bytes left unread' % left))
     if waited >= 2.9:
@@ -257,6 +286,8 @@ def make(kind, line, **kw):
     """client of `kind`; 'x:subclass' uses a trivial subclass of the stock framer"""
     base, _, sub = kind.partition(':')
     kw.setdefault('retries', 0)
+    if sub == 'echo':
+        return clients.make_client(base, line, handle_local_echo=True, **kw)
     if not sub:
         return clients.make_client(base, line, **kw)
     from pymodbus.client.sync import ModbusTcpClient
@@ -277,16 +308,17 @@ def shard_e2e(args):
         for rk in ('normal', 'exception'):
             run_e2e(acc, kind, m, rk)
     import itertools
-    for hist in itertools.product(('normal', 'exception', 'silent'), repeat=3):
-        run_history(acc, kind, hist)
-    for hist in (('silent', 'normal', 'exception'), ('silent', 'normal', 'normal', 'exception'), ('silent', 'silent', 'normal', 'exception')):
-        run_history(acc, kind, hist)
-    if kind.startswith('serial-'):
-        for m in (dict(kind='req', fc=3, address=3, count=4), dict(kind='req', fc=1, address=1, count=19),
-                  dict(kind='req', fc=16, address=8, count=3, byte_count=6, registers=[1, 2, 3]), dict(kind='req', fc=6, address=6, value=0x1234)):
-            for first in ('silent', 'wrong-unit'):
-                for rk in ('normal', 'exception'):
-                    run_retry(acc, kind, m, first, rk)
+    if not kind.endswith(':echo'):          # the scripted peers of the multi-transaction scenarios do not echo
+        for hist in itertools.product(('normal', 'exception', 'silent'), repeat=3):
+            run_history(acc, kind, hist)
+        for hist in (('silent', 'normal', 'exception'), ('silent', 'normal', 'normal', 'exception'), ('silent', 'silent', 'normal', 'exception')):
+            run_history(acc, kind, hist)
+        if kind.startswith('serial-'):
+            for m in (dict(kind='req', fc=3, address=3, count=4), dict(kind='req', fc=1, address=1, count=19),
+                      dict(kind='req', fc=16, address=8, count=3, byte_count=6, registers=[1, 2, 3]), dict(kind='req', fc=6, address=6, value=0x1234)):
+                for first in ('silent', 'wrong-unit'):
+                    for rk in ('normal', 'exception'):
+                        run_retry(acc, kind, m, first, rk)
     acc.sample(dict(client=kind, example='read 19 coils: frame %s' % adu.build(FRAMING2[kind], 1, server_reply(dict(kind='req', fc=1, address=1, count=19))).hex()))
     return acc
 
@@ -297,7 +329,7 @@ def shard(args):
 
 def run(tier, seed):
     parts = 12
-    shards = [('static', k, parts) for k in range(parts)] + [('e2e', k, tier) for k in ('serial-rtu', 'serial-ascii', 'serial-binary', 'rtu-over-tcp', 'rtu-over-tcp:subclass', 'ascii-over-tcp:subclass', 'tls')]
+    shards = [('static', k, parts) for k in range(parts)] + [('e2e', k, tier) for k in ('serial-rtu', 'serial-ascii', 'serial-binary', 'rtu-over-tcp', 'rtu-over-tcp:subclass', 'ascii-over-tcp:subclass', 'tls', 'serial-rtu:echo', 'serial-ascii:echo')]
     acc = par.run_shards(shard, shards)
     return dict(acc=acc, level=LEVEL,
                 coverage=dict(
